@@ -275,7 +275,7 @@ bool Directory::exists(const String& dir)
 bool Directory::create(const String& dir)
 {
   String parent = File::getDirectoryName(dir);
-  if(parent != "." && !Directory::exists(parent))
+  if(parent != "." && !parent.isEmpty() && !Directory::exists(parent))
   {
     if(!Directory::create(parent))
       return false;
@@ -286,9 +286,8 @@ bool Directory::create(const String& dir)
   if(mkdir(dir, S_IRUSR | S_IWUSR | S_IXUSR | S_IRGRP | S_IXGRP | S_IROTH | S_IXOTH) != 0)
 #endif
   {
-    String basename = File::getBaseName(dir);
-    if(basename == "." || basename == "..")
-      return true;
+    // not an error when the directory is there already (".", "..", a trailing separator, created concurrently)
+    return Directory::exists(dir);
   }
   return true;
 }
